@@ -51,6 +51,7 @@ type frame struct {
 	panicV           *targetPanic
 	phitemps         []Value
 	callPos          token.Pos
+	loopCount        map[*ssa.BasicBlock]int
 }
 
 func (fr *frame) get(key ssa.Value) Value {
@@ -234,10 +235,16 @@ func (m *Machine) visitInstr(fr *frame, instr ssa.Instruction) continuation {
 			succ = 0
 		}
 		fr.prevBlock, fr.block = fr.block, fr.block.Succs[succ]
+		if m.loopBounds != nil && fr.block.Index <= fr.prevBlock.Index {
+			m.checkLoopBound(fr)
+		}
 		return kJump
 
 	case *ssa.Jump:
 		fr.prevBlock, fr.block = fr.block, fr.block.Succs[0]
+		if m.loopBounds != nil && fr.block.Index <= fr.prevBlock.Index {
+			m.checkLoopBound(fr)
+		}
 		return kJump
 
 	case *ssa.Defer:
